@@ -53,105 +53,105 @@ func init() {
 	stubs := "stubs S1-S9 of DESIGN.md §3.5 (map order = insertion order, reflect/fmt models, rand.Perm = identity, fixed time, synthetic runtime.FuncForPC)"
 	uf := "user functions are reflect.MakeFunc values over symbolic plain types (*vT with a symbolic identity among 16) unless stated; histories are the stated skeletons only"
 
-	reg("C01", d("verifC01a", "verifC01b", "verifC01c", "verifC01d", "verifC01e", "verifC01f", "verifC01g", "verifC01h"), d("verifC01a", "verifC01b", "verifC01c", "verifC01d", "verifC01e", "verifC01f", "verifC01g", "verifC01h", "verifT01a", "verifT01b"),
+	reg("C01", d("verifC01a", "verifC01b", "verifC01c", "verifC01d", "verifC01e", "verifC01f", "verifC01g", "verifC01h", "verifC01i"), d("verifC01a", "verifC01b", "verifC01c", "verifC01d", "verifC01e", "verifC01f", "verifC01g", "verifC01h", "verifC01i", "verifT01a"),
 		d(psBuild, poBuild, plBuild, cnCall, extract, rsExtract, roExtract, invoke, dnCall),
 		d("invoke-ok", "cross-scope-arg", "optional-zero", "optional-present", "bystander", "decorated-arg", "invoke-ok-2deps"),
-		"4 skeletons: (a) 2 ctors <=1 param, param objects, optional, <=2 scopes, 1 Invoke; (b) 2 ctors positional, Export, <=2 scopes, 2 Invokes; (c) 1 ctor with <=2 results, result objects, names {\"\",a}, Invoke with <=2 params; (d) 3 registrations incl. <=1 decorator, <=2 scopes; (e) 1 ctor + 2 decorators (two keys / extra dependency / no input) at free levels of <=2 scopes, 2 Invokes; (f) 2 ctors with Export and optional object fields over <=2 scopes; (g) 3 parameterless ctors + 1 decorator with an extra dependency over <=2 scopes (a descendant shadowing that dependency); (h) 2 parameterless ctors with Export and names {\"\",a} over <=2 scopes, duplicates allowed (rejected ones must not supply), 2 Invokes", "quick entries plus (T01a) 3 ctors, Export, <=2 scopes; (T01b) 2 ctors with <=2 params in objects, names, optional",
+		"4 skeletons: (a) 2 ctors <=1 param, param objects, optional, <=2 scopes, 1 Invoke; (b) 2 ctors positional, Export, <=2 scopes, 2 Invokes; (c) 1 ctor with <=2 results, result objects, names {\"\",a}, Invoke with <=2 params; (d) 3 registrations incl. <=1 decorator, <=2 scopes; (e) 1 ctor + 2 decorators (two keys / extra dependency / no input) at free levels of <=2 scopes, 2 Invokes; (f) 2 ctors with Export and optional object fields over <=2 scopes; (g) 3 parameterless ctors + 1 decorator with an extra dependency over <=2 scopes (a descendant shadowing that dependency); (h) 2 parameterless ctors with Export and names {\"\",a} over <=2 scopes, duplicates allowed (rejected ones must not supply), 2 Invokes; (i) 1 ctor (Export free), 2 Invokes from free scopes, 1 more ctor possibly of the same key in another scope, a third Invoke", "the quick entries, each explored a second time with z3 4.8.12 (--cross z3), 200 paths validated natively, plus (T01a) 3 ctors, Export, <=2 scopes",
 		stubs, uf, "profiles b-d assume the Invoke has no missing dependency; produced single keys assumed pairwise distinct (duplicates are C09)")
-	reg("C02", d("verifC02a", "verifC02b", "verifC02c", "verifC02d", "verifC02e", "verifC02f", "verifC02g"), d("verifC02a", "verifC02b", "verifC02c", "verifC02d", "verifC02e", "verifC02f", "verifC02g", "verifT02a"),
+	reg("C02", d("verifC02a", "verifC02b", "verifC02c", "verifC02d", "verifC02e", "verifC02f", "verifC02g", "verifC02h"), d("verifC02a", "verifC02b", "verifC02c", "verifC02d", "verifC02e", "verifC02f", "verifC02g", "verifC02h", "verifT02a"),
 		d(cnCall, dnCall, psBuild, pgBuild),
 		d("invoke-ok", "decorated-arg", "group-nonempty", "cross-scope-arg", "invoke-on-cycle", "reentered"),
-		"5 skeletons: (a) 2 ctors, Export, <=2 scopes (also created late), 2 Invokes; (b) 3 registrations incl. <=1 decorator, 2 Invokes; (c) 2 ctors with group results/params, 2 Invokes; (d) 3 registrations incl. a decorator with an extra dependency or a second key; (e) 2 registrations incl. <=1 decorator whose bodies may re-enter the container (Invoke of their own result key from their own scope) on their first execution, 2 Invokes; (f) 2 ctors + 1 decorator with group and single edges (group feeders whose dependency is decorated by a consumer of the group); (g) feeder + group decorator, Invoke, one more feeder, Invoke", "quick entries plus (T02a) 3 Invokes over late scopes",
+		"5 skeletons: (a) 2 ctors, Export, <=2 scopes (also created late), 2 Invokes; (b) 3 registrations incl. <=1 decorator, 2 Invokes; (c) 2 ctors with group results/params, 2 Invokes; (d) 3 registrations incl. a decorator with an extra dependency or a second key; (e) 2 registrations incl. <=1 decorator whose bodies may re-enter the container (Invoke of their own result key from their own scope) on their first execution, 2 Invokes; (f) 2 ctors + 1 decorator with group and single edges (group feeders whose dependency is decorated by a consumer of the group); (g) feeder + group decorator, Invoke, one more feeder, Invoke; (h) 1 ctor, Invoke, a second ctor with <=2 results (Export free, possibly duplicating a key through Export), 2 more Invokes", "the quick entries, each explored a second time with z3 4.8.12 (--cross z3), 200 paths validated natively, plus (T02a) 3 Invokes over late scopes",
 		stubs, uf, "no missing dependencies; distinct single keys; no failing user functions")
-	reg("C03", d("verifC03a", "verifC03b", "verifC03c", "verifC03d", "verifC03e"), d("verifC03a", "verifC03b", "verifC03c", "verifC03d", "verifC03e", "verifT03a"),
+	reg("C03", d("verifC03a", "verifC03b", "verifC03c", "verifC03d", "verifC03e", "verifC03f", "verifC03g"), d("verifC03a", "verifC03b", "verifC03c", "verifC03d", "verifC03e", "verifC03f", "verifC03g"),
 		d(cnCall, invoke, provide, "go.uber.org/dig.Visualize", "(*go.uber.org/dig.Scope).String"),
 		d("invoke-ok", "bystander", "missing", "soft-group-arg", "optional-zero"),
-		"(a) 3 ctors <=1 param over <=2 scopes, String+Visualize after every registration, 1 Invoke; (b) 2 ctors with optional / group / soft group params, 1 Invoke; (c) group feeders and group/single decorators (two keys, extra dependency, no input) over <=2 scopes; (d) 1 ctor + 2 decorators at free levels of <=2 scopes, 2 Invokes; (e) 2 ctors with Export and optional object fields over <=2 scopes", "quick entries plus (T03a) 3 ctors with optional and group edges over 2 scopes",
+		"(a) 3 ctors <=1 param over <=2 scopes, String+Visualize after every registration, 1 Invoke; (b) 2 ctors with optional / group / soft group params, 1 Invoke; (c) group feeders and group/single decorators (two keys, extra dependency, no input) over <=2 scopes; (d) 1 ctor + 2 decorators at free levels of <=2 scopes, 2 Invokes; (e) 2 ctors with Export and optional object fields over <=2 scopes; (f) 2 group feeders provided As(vI0) / As(vI0,vI1), 2 Invokes consuming one of the interface groups; (g) a feeder, a group decorator in the root and one in the child (consuming the group or not), consumer (hard or soft) in a free scope", "the quick entries, each explored a second time with z3 4.8.12 (--cross z3), 200 paths validated natively",
 		stubs, uf)
-	reg("C04", d("verifC04a", "verifC04b", "verifC04c", "verifC04d", "verifC04e", "verifC04f"), d("verifC04a", "verifC04b", "verifC04c", "verifC04d", "verifC04e", "verifC04f", "verifT04a"),
+	reg("C04", d("verifC04a", "verifC04b", "verifC04c", "verifC04d", "verifC04e", "verifC04f"), d("verifC04a", "verifC04b", "verifC04c", "verifC04d", "verifC04e", "verifC04f"),
 		d("go.uber.org/dig.findMissingDependencies", "go.uber.org/dig.shallowCheckDependencies", "go.uber.org/dig.newErrMissingTypes", "go.uber.org/dig.isFieldOptional", psBuild),
 		d("missing", "optional-zero", "optional-present", "invoke-ok"),
-		"(a) 2 ctors, <=2 scopes, optional fields; (b) chain of 3 ctors in one scope, every edge optional or required, 1 Invoke; (c) 2 ctors with Export over <=2 scopes; (d) 1 ctor, Invoke, 1 more ctor, the Invoke again (optional fields); (e) ctor, ctor, decorator with an extra dependency, ctor - each may return an error - below an optional consumer (assumed: all four accepted, the decorated key has a visible constructor, the decorator's own dependencies are not missing); (f) 2 ctors with nested parameter objects (depth 2), optional fields", "quick entries plus (T04a) 3 ctors, 2 scopes, optional, Export",
+		"(a) 2 ctors, <=2 scopes, optional fields; (b) chain of 3 ctors in one scope, every edge optional or required, 1 Invoke; (c) 2 ctors with Export over <=2 scopes; (d) 1 ctor, Invoke, 1 more ctor, the Invoke again (optional fields); (e) ctor, ctor, decorator with an extra dependency, ctor - each may return an error - below an optional consumer (assumed: all four accepted, the decorated key has a visible constructor, the decorator's own dependencies are not missing); (f) 2 ctors with nested parameter objects (depth 2), optional fields", "the quick entries, each explored a second time with z3 4.8.12 (--cross z3), 200 paths validated natively",
 		stubs, uf)
-	reg("C05", d("verifC05u", "verifC05sa", "verifC05sb", "verifC05sc", "verifC05sd", "verifC05se", "verifC05sf"), d("verifC05u", "verifC05sa", "verifC05sb", "verifC05sc", "verifC05sd", "verifC05se", "verifC05sf", "verifT05u", "verifT05a", "verifT05b"),
+	reg("C05", d("verifC05u", "verifC05sa", "verifC05sb", "verifC05sc", "verifC05sd", "verifC05se", "verifC05sf", "verifC05sh"), d("verifC05u", "verifC05sa", "verifC05sb", "verifC05sc", "verifC05sd", "verifC05se", "verifC05sf", "verifC05sh", "verifT05a"),
 		d(isAcyclic, "go.uber.org/dig/internal/graph.isAcyclic", "(*go.uber.org/dig.graphHolder).EdgesFrom", provide, invoke, "(*go.uber.org/dig.graphHolder).Rollback"),
 		d("acyclic", "cyclic", "cycle-len>=3", "cycle-rejected", "cycle-deferred", "invoke-on-cycle", "reentered", "invoke-on-static-cycle"),
-		"unit: every digraph with n<=4 nodes (symbolic adjacency matrix); system: (sa) 2 ctors with 1 param/1 result of symbolic type, Export, <=2 scopes; (sb) same with DeferAcyclicVerification and 2 Invokes; (sc) group and optional edges, defer free; (sd) 2 ctors over <=3 scopes of free shape (cycles visible only from a grandchild); (se) 2 registrations incl. <=1 decorator whose bodies may re-enter the container, defer free, <=2 scopes; (sf) DeferAcyclicVerification: 1 ctor, Invoke, 1 more ctor (optional / group edges), Invoke again", "quick entries plus (T05u) the unit harness over every digraph with n<=5 nodes; (T05a) 3 ctors, Export, scopes created at any time; (T05b) defer free, <=3 scopes, group edges",
+		"unit: every digraph with n<=4 nodes (symbolic adjacency matrix); system: (sa) 2 ctors with 1 param/1 result of symbolic type, Export, <=2 scopes; (sb) same with DeferAcyclicVerification and 2 Invokes; (sc) group and optional edges, defer free; (sd) 2 ctors over <=3 scopes of free shape (cycles visible only from a grandchild); (se) 2 registrations incl. <=1 decorator whose bodies may re-enter the container, defer free, <=2 scopes; (sf) DeferAcyclicVerification: 1 ctor, Invoke, 1 more ctor (optional / group edges), Invoke again; (sh) 2 ctors with value-group parameters and Export over <=2 scopes", "the quick entries, each explored a second time with z3 4.8.12 (--cross z3), 200 paths validated natively, plus (T05a) 3 ctors, Export, scopes created at any time",
 		stubs, uf, "exceeding 600 frames / 2e7 steps counts as non-termination and is replayed natively")
 	props["C05"].FuelIsViolation = true
-	reg("C06", d("verifC06a", "verifC06b", "verifC06c", "verifC06d", "verifC06e"), d("verifC06a", "verifC06b", "verifC06c", "verifC06d", "verifC06e", "verifT06a", "verifT06b"),
+	reg("C06", d("verifC06a", "verifC06b", "verifC06c", "verifC06d", "verifC06e", "verifC06f"), d("verifC06a", "verifC06b", "verifC06c", "verifC06d", "verifC06e", "verifC06f"),
 		d(provide, "(*go.uber.org/dig.graphHolder).Rollback", decorate, "(*go.uber.org/dig.provideOptions).Validate"),
 		d("after-rejection-compared", "rejected-cycle", "rejected-other", "rejected-bad-0", "rejected-bad-6", "rejected-decorator"),
-		"differential: container A gets a rejected candidate at a free position, container B does not; (a) candidate = generated ctor rejected for a cycle or duplicate, <=2 scopes, Export; (b) candidate = one of 12 malformed inputs or a duplicate decorator; (c) candidate = a decorator with two keys / an extra dependency / no input rejected because one of its keys is already decorated; then 1 registration and 1 Invoke compared; (d) 2 accepted ctors over <=2 scopes, the cycle-rejected candidate, 1 more ctor, Invoke; (e) group feeders and a candidate that feeds the group it consumes", "quick entries plus (T06a) 2 registrations around the candidate, Export, 2 scopes; (T06b) the same with two-key decorators and malformed inputs",
+		"differential: container A gets a rejected candidate at a free position, container B does not; (a) candidate = generated ctor rejected for a cycle or duplicate, <=2 scopes, Export; (b) candidate = one of 12 malformed inputs or a duplicate decorator; (c) candidate = a decorator with two keys / an extra dependency / no input rejected because one of its keys is already decorated; then 1 registration and 1 Invoke compared; (d) 2 accepted ctors over <=2 scopes, the cycle-rejected candidate, 1 more ctor, Invoke; (e) group feeders and a candidate that feeds the group it consumes; (f) a candidate with <=2 results in result objects (possibly the same group key twice)", "the quick entries, each explored a second time with z3 4.8.12 (--cross z3), 200 paths validated natively",
 		stubs, uf)
 	reg("C07", d("verifC07a", "verifC07b", "verifC07c", "verifC07d", "verifC07e"), d("verifC07a", "verifC07b", "verifC07c", "verifC07d", "verifC07e", "verifT07a"),
 		d(cnCall, dnCall, extract, invoke),
 		d("user-failure", "ctor-error", "panic-recovered", "panic-propagated", "retried", "decorated-arg"),
-		"(a) 2 ctors, each execution may succeed / return an error / panic, RecoverFromPanics free, 2 Invokes; (b) 2 registrations incl. <=1 decorator that may fail, 2 Invokes; (c) the same with the error result first or last in the signature; (d) ctor, ctor, decorator with an extra dependency, ctor below an optional consumer, each may return an error (assumed: all four accepted, the decorated key has a visible constructor, the decorator's own dependencies are not missing); (e) error results declared as the concrete error type vErrCode (its zero value is a non-nil error), 2 Invokes", "quick entries plus (T07a) 3 registrations incl. a decorator, all fault kinds",
+		"(a) 2 ctors, each execution may succeed / return an error / panic, RecoverFromPanics free, 2 Invokes; (b) 2 registrations incl. <=1 decorator that may fail, 2 Invokes; (c) the same with the error result first or last in the signature; (d) ctor, ctor, decorator with an extra dependency, ctor below an optional consumer, each may return an error (assumed: all four accepted, the decorated key has a visible constructor, the decorator's own dependencies are not missing); (e) error results declared as the concrete error type vErrCode (its zero value is a non-nil error), 2 Invokes", "the quick entries, each explored a second time with z3 4.8.12 (--cross z3), 200 paths validated natively, plus (T07a) 3 registrations incl. a decorator, all fault kinds",
 		stubs, uf)
-	reg("C08", d("verifC08a", "verifC08b", "verifC08c"), d("verifC08a", "verifC08b", "verifC08c", "verifT08a"),
+	reg("C08", d("verifC08a", "verifC08b", "verifC08c", "verifC08d"), d("verifC08a", "verifC08b", "verifC08c", "verifC08d"),
 		d("(*go.uber.org/dig.Scope).Scope", "(*go.uber.org/dig.Scope).storesToRoot", provide, psBuild, "(*go.uber.org/dig.Scope).newGraphNode"),
 		d("cross-scope-arg", "missing", "invoke-ok", "bystander"),
-		"(a) 2 ctors with free scope and Export over <=3 scopes of free shape (created before or after the Provides), 1 Invoke from a free scope; (b) 1 ctor, 2 Invokes, a second ctor (possibly for the same key, in another scope), a third Invoke; (c) 1 ctor (Export free) over <=3 scopes created at any time, 2 Invokes with an optional object field", "quick entries plus (T08a) 2 ctors, 2 Invokes, <=3 scopes created at any time",
+		"(a) 2 ctors with free scope and Export over <=3 scopes of free shape (created before or after the Provides), 1 Invoke from a free scope; (b) 1 ctor, 2 Invokes, a second ctor (possibly for the same key, in another scope), a third Invoke; (c) 1 ctor (Export free) over <=3 scopes created at any time, 2 Invokes with an optional object field; (d) 2 group feeders with flatten results of length 0-2 over <=2 scopes, group contents checked", "the quick entries, each explored a second time with z3 4.8.12 (--cross z3), 200 paths validated natively",
 		stubs, uf)
 	reg("C09", d("verifC09a", "verifC09b", "verifC09c", "verifC09d", "verifC09e"), d("verifC09a", "verifC09b", "verifC09c", "verifC09d", "verifC09e", "verifT09a"),
 		d("(go.uber.org/dig.connectionVisitor).checkKey", "go.uber.org/dig.newResultSingle", rsExtract, "go.uber.org/dig.newParamObjectField"),
 		d("duplicate-key", "invoke-ok", "missing"),
-		"(a) 2 ctors with <=2 results, names {\"\",a} via option or result-object tag; (b) As(vI0) / As(vI0,vI1) on concrete *vA results, groups, consumers asking *vA / vI0 / vI1; (c) 2 single-result ctors with Export over <=2 scopes (duplicates through Export); (d) 2 ctors with group and single edges (a feeder rejected for a cycle next to accepted feeders), group contents checked; (e) 2 ctors with result objects and As(vI0) / As(vI0,vI1) over <=2 scopes (the same Out struct type with different As lists)", "quick entries plus (T09a) names, result objects, Export over 2 scopes",
+		"(a) 2 ctors with <=2 results, names {\"\",a} via option or result-object tag; (b) As(vI0) / As(vI0,vI1) on concrete *vA results, groups, consumers asking *vA / vI0 / vI1; (c) 2 single-result ctors with Export over <=2 scopes (duplicates through Export); (d) 2 ctors with group and single edges (a feeder rejected for a cycle next to accepted feeders), group contents checked; (e) 2 ctors with result objects and As(vI0) / As(vI0,vI1) over <=2 scopes (the same Out struct type with different As lists)", "the quick entries, each explored a second time with z3 4.8.12 (--cross z3), 200 paths validated natively, plus (T09a) names, result objects, Export over 2 scopes",
 		stubs, uf)
-	reg("C10", d("verifC10a", "verifC10b", "verifC10c", "verifC10d", "verifC10e", "verifC10f"), d("verifC10a", "verifC10b", "verifC10c", "verifC10d", "verifC10e", "verifC10f", "verifT10a"),
+	reg("C10", d("verifC10a", "verifC10b", "verifC10c", "verifC10d", "verifC10e", "verifC10f", "verifC10g"), d("verifC10a", "verifC10b", "verifC10c", "verifC10d", "verifC10e", "verifC10f", "verifC10g"),
 		d(pgBuild, "(go.uber.org/dig.paramGroupedSlice).callGroupProviders", rgExtract, "go.uber.org/dig.parseGroupString", "(*go.uber.org/dig.Scope).getValueGroup"),
 		d("group-nonempty", "invoke-ok", "bystander"),
-		"(a) 2 feeders placed freely in <=2 scopes with Export, 1 consumer from a free scope; (b) flatten results of length 0-2, a feeder added between two requests; (c) members provided As(vI0) / As(vI0,vI1), consumers of []*vA / []vI0 / []vI1, 2 Invokes; (d) 2 feeders with flatten results of length 0-2 placed freely in <=2 scopes; (e) 2 feeders and a consumer over the group names \"g\", \"g \", \"G\", \"gg\"; (f) ctor, ctor with <=2 results (single and group), decorator with an extra dependency (a feeder re-entered through a decorator of its dependency)", "quick entries plus (T10a) flatten, Export, a late feeder, 2 scopes, 2 Invokes",
+		"(a) 2 feeders placed freely in <=2 scopes with Export, 1 consumer from a free scope; (b) flatten results of length 0-2, a feeder added between two requests; (c) members provided As(vI0) / As(vI0,vI1), consumers of []*vA / []vI0 / []vI1, 2 Invokes; (d) 2 feeders with flatten results of length 0-2 placed freely in <=2 scopes; (e) 2 feeders and a consumer over the group names \"g\", \"g \", \"G\", \"gg\"; (f) ctor, ctor with <=2 results (single and group), decorator with an extra dependency (a feeder re-entered through a decorator of its dependency); (g) a root feeder with a dependency, a root and a child supplier of that dependency, consumer in a free scope", "the quick entries, each explored a second time with z3 4.8.12 (--cross z3), 200 paths validated natively",
 		stubs, uf, "group order is compared as a multiset")
-	reg("C11", d("verifC11a", "verifC11b", "verifC11c", "verifC11d", "verifC11e", "verifC11f"), d("verifC11a", "verifC11b", "verifC11c", "verifC11d", "verifC11e", "verifC11f", "verifT11a"),
+	reg("C11", d("verifC11a", "verifC11b", "verifC11c", "verifC11d", "verifC11e", "verifC11f"), d("verifC11a", "verifC11b", "verifC11c", "verifC11d", "verifC11e", "verifC11f"),
 		d(pgBuild, poBuild, "go.uber.org/dig.parseGroupString"),
 		d("soft-group-arg", "soft-group-nonempty", "invoke-ok"),
-		"(a) 1 ctor with <=2 results (group and single), consumer object with 2 fields in free order (soft group, hard dependency); (b) 2 feeders, 2 Invokes (the first may run feeders, the second consumes softly); (c) consumer object with 3 fields (soft groups and hard dependencies in free order); (d) 2 feeders placed freely in <=2 scopes, 2 Invokes from free scopes (soft consumer in a child that has feeders of its own); (e) 2 registrations (feeders or hard / soft consumers of the group) before a soft consumer is invoked; (f) feeder, decorator, two-key decorator (group first; rejected when its second key is already decorated), soft consumer", "quick entries plus (T11a) 2 feeders with 2 results, 2 Invokes with 2 fields",
+		"(a) 1 ctor with <=2 results (group and single), consumer object with 2 fields in free order (soft group, hard dependency); (b) 2 feeders, 2 Invokes (the first may run feeders, the second consumes softly); (c) consumer object with 3 fields (soft groups and hard dependencies in free order); (d) 2 feeders placed freely in <=2 scopes, 2 Invokes from free scopes (soft consumer in a child that has feeders of its own); (e) 2 registrations (feeders or hard / soft consumers of the group) before a soft consumer is invoked; (f) feeder, decorator, two-key decorator (group first; rejected when its second key is already decorated), soft consumer", "the quick entries, each explored a second time with z3 4.8.12 (--cross z3), 200 paths validated natively",
 		stubs, uf)
-	reg("C12", d("verifC12a", "verifC12b", "verifC12c", "verifC12d", "verifC12e", "verifC12g"), d("verifC12a", "verifC12b", "verifC12c", "verifC12d", "verifC12e", "verifC12g", "verifT12a"),
+	reg("C12", d("verifC12a", "verifC12b", "verifC12c", "verifC12d", "verifC12e", "verifC12g", "verifC12h"), d("verifC12a", "verifC12b", "verifC12c", "verifC12d", "verifC12e", "verifC12g", "verifC12h"),
 		d(dnCall, "(go.uber.org/dig.paramSingle).buildWithDecorators", decorate, "go.uber.org/dig.findResultKeys"),
 		d("decorated-arg", "invoke-ok", "provide-rejected", "decorated-group"),
-		"2-3 registrations of which <=2 decorators at free levels of <=2 scopes, 2 Invokes from free scopes; decorators with an extra dependency, a second key or no input; two decorators of one key at two levels resolved twice; (d) 1 ctor + 1 decorator that may fail or panic (RecoverFromPanics free), 2 Invokes; (e) ctor, decorator, ctor of possibly the same key over <=2 scopes, 2 Invokes; (g) a decorator in the root, a decorator and a (possibly exported) constructor in the child, groups and single keys, extra dependencies / second keys / no input", "quick entries plus (T12a) any mix of 3 registrations with <=2 decorators",
+		"2-3 registrations of which <=2 decorators at free levels of <=2 scopes, 2 Invokes from free scopes; decorators with an extra dependency, a second key or no input; two decorators of one key at two levels resolved twice; (d) 1 ctor + 1 decorator that may fail or panic (RecoverFromPanics free), 2 Invokes; (e) ctor, decorator, ctor of possibly the same key over <=2 scopes, 2 Invokes; (g) a decorator in the root, a decorator and a (possibly exported) constructor in the child, groups and single keys, extra dependencies / second keys / no input; (h) a decorator, Invoke, a second decorator, Invoke again, over a chain of <=3 scopes (groups and single keys)", "the quick entries, each explored a second time with z3 4.8.12 (--cross z3), 200 paths validated natively",
 		stubs, uf)
-	reg("C13", d("verifC13a", "verifC13b", "verifC13c", "verifC13d", "verifC13e"), d("verifC13a", "verifC13b", "verifC13c", "verifC13d", "verifC13e", "verifT13a"),
+	reg("C13", d("verifC13a", "verifC13b", "verifC13c", "verifC13d", "verifC13e", "verifC13f"), d("verifC13a", "verifC13b", "verifC13c", "verifC13d", "verifC13e", "verifC13f", "verifT13a"),
 		d("go.uber.org/dig.RootCause", "go.uber.org/dig.IsCycleDetected", invoke, cnCall, "(go.uber.org/dig.errConstructorFailed).Unwrap"),
 		d("invoked-fn-error", "ctor-error", "panic-recovered", "panic-propagated", "missing"),
-		"(a) 2 ctors + invoked function, each may fail by error or panic, param objects, <=2 scopes, RecoverFromPanics free; (b) Invoke, a registration, Invoke again (dig-originated failures that must not stick); (c) 1 ctor or decorator in a free scope of <=2, every combination of RecoverFromPanics and DeferAcyclicVerification; (d) ctor + decorator with callbacks registered, all fault kinds; (e) error results declared as the concrete error type vErrCode, first or last", "quick entries plus (T13a) 3 ctors over 2 scopes",
+		"(a) 2 ctors + invoked function, each may fail by error or panic, param objects, <=2 scopes, RecoverFromPanics free; (b) Invoke, a registration, Invoke again (dig-originated failures that must not stick); (c) 1 ctor or decorator in a free scope of <=2, every combination of RecoverFromPanics and DeferAcyclicVerification; (d) ctor + decorator with callbacks registered, all fault kinds; (e) error results declared as the concrete error type vErrCode, first or last; (f) ctor, ctor, decorator with an extra dependency, ctor below an optional consumer, each may return an error (same assumptions as C07d)", "the quick entries, each explored a second time with z3 4.8.12 (--cross z3), 200 paths validated natively, plus (T13a) 3 ctors over 2 scopes",
 		stubs, uf)
-	reg("C14", d("verifC14a", "verifC14b", "verifC14c"), d("verifC14a", "verifC14b", "verifC14c", "verifT14a"),
+	reg("C14", d("verifC14a", "verifC14b", "verifC14c"), d("verifC14a", "verifC14b", "verifC14c"),
 		d(provide, decorate, invoke, "go.uber.org/dig.newParamObjectField", "go.uber.org/dig.newResultObjectField", "go.uber.org/dig.parseGroupString", "go.uber.org/dig.isFieldOptional", "(*go.uber.org/dig.provideOptions).Validate", "go.uber.org/dig.Visualize"),
 		d("input-accepted", "input-rejected", "visualize-error"),
-		"one input from a grammar of 40 value/function shapes x 27 struct tags x 7 field types x 17 option sets, passed to Provide / Decorate / Invoke before or after 1 registration, then String, Visualize, probe Invokes consuming the keys the input may have registered, and 1 Invoke; twin container without the input; an accepted feeder of group g is registered first in both; (b),(c) 1-2 generated registrations incl. value-group decorators that fail (missing dependency or error), String/Visualize after every call and Visualize(VisualizeError) after every failed Invoke", "quick entries plus (T14a) the input after 0-2 registrations over 2 scopes",
+		"one input from a grammar of 40 value/function shapes x 27 struct tags x 7 field types x 21 option sets, passed to Provide / Decorate / Invoke before or after 1 registration, then String, Visualize, probe Invokes consuming the keys the input may have registered, and 1 Invoke; twin container without the input; an accepted feeder of group g is registered first in both; (b),(c) 1-2 generated registrations incl. value-group decorators that fail (missing dependency or error), String/Visualize after every call and Visualize(VisualizeError) after every failed Invoke", "the quick entries, each explored a second time with z3 4.8.12 (--cross z3), 200 paths validated natively",
 		stubs, "types of the grammar are concrete (declared or reflect.StructOf/FuncOf)")
-	reg("C15", d("verifC15a", "verifC15b", "verifC15c", "verifC15d", "verifC15e"), d("verifC15a", "verifC15b", "verifC15c", "verifC15d", "verifC15e", "verifT15a"),
+	reg("C15", d("verifC15a", "verifC15b", "verifC15c", "verifC15d", "verifC15e", "verifC15f"), d("verifC15a", "verifC15b", "verifC15c", "verifC15d", "verifC15e", "verifC15f"),
 		d("go.uber.org/dig.newParamObject", "go.uber.org/dig.newResultObject", "go.uber.org/dig.newParamList", poBuild, roExtract),
 		d("encoding-differs", "invoke-ok"),
-		"differential: the same history with every function re-encoded (positional <-> object field at depth 1/2, option <-> tag, +variadic); (a) 1 ctor + Invoke with names/optional; (b) 1 ctor with 2 results and groups; (c) 1 ctor with 2 results and names {\"\",a}, Invoke with 2 params; (d) 1 ctor with <=2 parameters and names {\"\",a} that may depend on its own result (cycle verdicts of every encoding); (e) positional / embed-first / unexported-field-before-embed spellings of one constructor (ignore-unexported)", "quick entries plus (T15a) two functions re-encoded",
+		"differential: the same history with every function re-encoded (positional <-> object field at depth 1/2, option <-> tag, +variadic); (a) 1 ctor + Invoke with names/optional; (b) 1 ctor with 2 results and groups; (c) 1 ctor with 2 results and names {\"\",a}, Invoke with 2 params; (d) 1 ctor with <=2 parameters and names {\"\",a} that may depend on its own result (cycle verdicts of every encoding); (e) positional / embed-first / unexported-field-before-embed spellings of one constructor (ignore-unexported); (f) 2 parameterless ctors that may fail, Invoke with 2 parameters re-encoded uniformly (positional / object / nested object): the same functions run", "the quick entries, each explored a second time with z3 4.8.12 (--cross z3), 200 paths validated natively",
 		stubs, uf)
 	reg("C16", d("verifC16a", "verifC16b", "verifC16e", "verifC16f", "verifC16g"), d("verifC16a", "verifC16b", "verifC16g", "verifC16c", "verifC16d"),
 		d("(*go.uber.org/dig.Scope).Scope", "(*go.uber.org/dig.Scope).newGraphNode", provide, invoke),
 		d("permuted", "scopes-moved", "order-compared-ok"),
 		"differential over 3 containers: A as drawn, B with all scopes created first and the registrations permuted, C with DeferAcyclicVerification; (a) 2 registrations with group params, <=2 scopes; (b) 3 registrations incl. a decorator; (e) 3 registrations with group and single edges over <=2 scopes created first (order only); (f) 3 ctors over <=3 scopes created at any time, order kept (scope timing only); (g) 2 parameterless ctors with Export over <=2 scopes (exported and private registrations of one key in either order)", "(a),(b) plus (c) = (e) with scopes created at any time and (d) = (f) with every registration order",
 		stubs, uf, "histories whose registrations are all accepted in A")
-	reg("C17", d("verifC17a", "verifC17b", "verifC17c", "verifC17d"), d("verifC17a", "verifC17b", "verifC17c", "verifC17d", "verifT17a"),
+	reg("C17", d("verifC17a", "verifC17b", "verifC17c", "verifC17d", "verifC17e"), d("verifC17a", "verifC17b", "verifC17c", "verifC17d", "verifC17e"),
 		d("go.uber.org/dig.dryInvoker", cnCall, invoke),
 		d("dry-compared", "invoke-ok", "missing", "provide-rejected"),
-		"differential: DryRun(true) container vs normal container; (a) 2 registrations incl. <=1 decorator, optional fields, <=2 scopes; (b) 1 ctor with groups/flatten/names/result objects; (c) 2 registrations incl. a decorator with two keys (one of them not consumed) / extra dependency / no input, 2 Invokes; (d) 2 registrations incl. a decorator over <=2 scopes with RecoverFromPanics and DeferAcyclicVerification free in both containers", "quick entries plus (T17a) 2 registrations with groups, names, result objects",
+		"differential: DryRun(true) container vs normal container; (a) 2 registrations incl. <=1 decorator, optional fields, <=2 scopes; (b) 1 ctor with groups/flatten/names/result objects; (c) 2 registrations incl. a decorator with two keys (one of them not consumed) / extra dependency / no input, 2 Invokes; (d) 2 registrations incl. a decorator over <=2 scopes with RecoverFromPanics and DeferAcyclicVerification free in both containers; (e) variadic constructors, decorators and invoked functions", "the quick entries, each explored a second time with z3 4.8.12 (--cross z3), 200 paths validated natively",
 		stubs, uf, "user functions never fail")
-	reg("C18", d("verifC18a", "verifC18b", "verifC18c", "verifC18d"), d("verifC18a", "verifC18b", "verifC18c", "verifC18d", "verifT18a"),
+	reg("C18", d("verifC18a", "verifC18b", "verifC18c", "verifC18d", "verifC18e"), d("verifC18a", "verifC18b", "verifC18c", "verifC18d", "verifC18e"),
 		d("(go.uber.org/dig.paramSingle).DotParam", "(go.uber.org/dig.paramObject).DotParam", "(go.uber.org/dig.resultSingle).DotResult", "(go.uber.org/dig.resultGrouped).DotResult", provide, decorate, invoke),
 		d("provide-info", "decorate-info", "invoke-info", "info-optional", "info-group", "info-2outputs", "rejected-info-untouched", "reused-info", "cycle-rejected-info-untouched"),
-		"one signature per call from the descriptor grammar: <=2 params (positional, object field, nested object field, names, optional, group, soft), <=2 results (positional/object, names, groups, flatten, As), variadic; FillProvideInfo / FillDecorateInfo / FillInvokeInfo; a second call with a pre-populated Info struct (rejected: untouched; accepted: rewritten); (d) a second generated constructor that may close a cycle with the first", "quick entries plus (T18a) the full signature grammar in one profile",
+		"one signature per call from the descriptor grammar: <=2 params (positional, object field, nested object field, names, optional, group, soft), <=2 results (positional/object, names, groups, flatten, As), variadic; FillProvideInfo / FillDecorateInfo / FillInvokeInfo; a second call with a pre-populated Info struct (rejected: untouched; accepted: rewritten); (d) a second generated constructor (into the root or a child scope) that may close a cycle with the first; (e) two constructors with result objects and As(vI0) / As(vI0,vI1) / no As (possibly the same Out struct type)", "the quick entries, each explored a second time with z3 4.8.12 (--cross z3), 200 paths validated natively",
 		stubs, uf, "distinct-function => distinct-ID is not decided (IDs are code pointers fabricated by the engine)")
-	reg("C19", d("verifC19a", "verifC19b"), d("verifC19a", "verifC19b", "verifT19a", "verifT19b"),
+	reg("C19", d("verifC19a", "verifC19b"), d("verifC19a", "verifC19b"),
 		d("go.uber.org/dig.Visualize", "go.uber.org/dig.visualizeGraph", "go.uber.org/dig.visualizeCtor", "go.uber.org/dig.visualizeGroup", "(*go.uber.org/dig/internal/dot.Graph).AddCtor", "(*go.uber.org/dig/internal/dot.Graph).PruneSuccess", "go.uber.org/dig.CanVisualizeError"),
 		d("two-clusters", "group-node", "group-2members", "dashed-edge", "rejected-registration", "missing-type-picture", "ctor-failure-picture", "transitive-failure", "grandchild-cluster", "decorator-failure-picture"),
-		"(a) 1-3 registrations drawn from a catalogue of 14 declared constructors (plain, named, optional, group feeders/consumers, failing) into root, a child or a grandchild scope, duplicates rejected; the DOT text is parsed and compared with the catalogue descriptors; (b) 1-2 registrations, optionally a decorator of *vV3 in a free scope, then a failing Invoke (missing type, failing constructor / group feeder, or failing decorator) and VisualizeError", "quick entries plus (T19a) 1-4 registrations; (T19b) 1-3 registrations before the failing Invoke",
+		"(a) 1-3 registrations drawn from a catalogue of 14 declared constructors (plain, named, optional, group feeders/consumers, failing) into root, a child or a grandchild scope, duplicates rejected; the DOT text is parsed and compared with the catalogue descriptors; (b) 1-2 registrations, optionally a decorator of *vV3 in a free scope, then a failing Invoke (missing type, failing constructor / group feeder, or failing decorator) and VisualizeError", "the quick entries, each explored a second time with z3 4.8.12 (--cross z3), 200 paths validated natively",
 		stubs, "concrete declared functions and types; the DOT text is produced by dig's code through the engine's fmt model (S3)", "no symbolic data: the solver contributes the enumeration of histories only (weakest fit, see DESIGN.md)")
-	reg("C20", d("verifC20a", "verifC20b", "verifC20c"), d("verifC20a", "verifC20b", "verifC20c", "verifT20a"),
+	reg("C20", d("verifC20a", "verifC20b", "verifC20c"), d("verifC20a", "verifC20b", "verifC20c"),
 		d(cnCall, dnCall, "go.uber.org/dig.WithProviderCallback"),
 		d("callback-ok", "callback-error", "callback-panic", "callback-runtime", "callback-silent"),
-		"(a) 2 ctors with callbacks on a free subset, faults free (ok/error/panic on executions 1,2), RecoverFromPanics free, 2 Invokes; (b) <=1 decorator with callback, <=2 scopes; (c) 2 registrations incl. <=1 decorator, error result first or last; clock readings symbolic (every user function advances the clock by a symbolic 0<=dt<2^40)", "quick entries plus (T20a) 2 registrations incl. a decorator with callback over <=2 scopes, all fault kinds, 2 Invokes",
+		"(a) 2 ctors with callbacks on a free subset, faults free (ok/error/panic on executions 1,2), RecoverFromPanics free, 2 Invokes; (b) <=1 decorator with callback, <=2 scopes; (c) 2 registrations incl. <=1 decorator, error result first or last; DryRun(true),DryRun(false) may precede the other options; clock readings symbolic (every user function advances the clock by a symbolic 0<=dt<2^40)", "the quick entries, each explored a second time with z3 4.8.12 (--cross z3), 200 paths validated natively",
 		stubs, uf, "CallbackInfo.Name is not checked for MakeFunc functions (they share one code pointer)")
 }
